@@ -591,6 +591,37 @@ theorem dead_worker_exit_still_stops_the_sink (h : Handler) (he : h.enqueue = tr
   simp only at hs he ho hd hh; subst hs
   exact ⟨hh, rfl, rfl, f.stop, rfl, h2.1, h2.2.2.1, by rw [h2.2.1]; rfl, h2.2.2.2.1⟩
 
+/-- one handler's failure does not keep the others from being finalised: from ANY mix of live handlers
+and enqueued handlers whose worker thread has ended, the exit callbacks leave nobody registered, every
+handler stopped and none hung; a live handler's sink has received its whole queue before being stopped,
+a handler without worker has its sink stopped as it is -/
+theorem exit_with_dead_workers_still_stops_everyone (lg : Logger)
+    (hl : ∀ h ∈ lg.handlers, Live h ∨ DeadWorker h) :
+    (interpreterExit lg).handlers = [] ∧
+    (interpreterExit lg).removed = lg.removed ++ lg.handlers.map Handler.finalAny ∧
+    ∀ h ∈ lg.handlers, h.finalAny.stopped = true ∧ h.finalAny.hung = false ∧
+      (Live h → h.finalAny.sink = (h.queue.foldl Sink.write h.sink).stop ∧ h.finalAny.queue = []) ∧
+      (DeadWorker h → h.finalAny.sink = h.sink.stop) := by
+  rw [exit_eq_any lg hl]
+  refine ⟨rfl, rfl, ?_⟩
+  intro h hh
+  by_cases hd : h.workerDead = true
+  · have hf : h.finalAny = h.finalDead := by simp [Handler.finalAny, hd]
+    rcases hl h hh with l | d
+    · exact absurd hd (by simp [l.2.2.2.2.2.2])
+    · rw [hf]
+      exact ⟨rfl, d.2.2.2.2, fun l => absurd hd (by simp [l.2.2.2.2.2.2]), fun _ => rfl⟩
+  · have hf : h.finalAny = h.final := by simp [Handler.finalAny, hd]
+    rcases hl h hh with l | d
+    · rw [hf]
+      exact ⟨rfl, l.2.2.2.2.1, fun _ => ⟨rfl, rfl⟩, fun d => absurd d.2.2.1 hd⟩
+    · exact absurd d.2.2.1 hd
+
+/-- the one-buffer abstraction commutes with whole histories of writes on a buffered stream (no spill) -/
+theorem text_file_abstracts_histories (l : Layered) (hb : l.buffered = true) (ms : List Str) :
+    (runLayered l (ms.map (fun m => (m, Spill.none)))).toTextFile = ms.foldl TextFile.write l.toTextFile :=
+  toTextFile_run ms l hb
+
 /-! ### non-vacuity -/
 
 example : Ready (FileSink.new none true true false) := (new_ready _ _ _ _).1
